@@ -135,7 +135,7 @@ struct DocCase<'a> {
 
 fn case_json(c: &DocCase, extra: Value) -> Value {
     json!({
-        "kind": "doc",
+        "kind": if c.source == "short" { "short" } else { "doc" },
         "source": c.source,
         "text": c.text,
         "multi": c.multi,
@@ -162,7 +162,43 @@ fn pre_order(root: &RNode) -> Vec<&RNode> {
 }
 
 /// Compare a library location with the raw parser's mark for the same node.
-fn vs_parser(l: &Location, p: &Pos) -> Result<(), (&'static str, String)> {
+/// End of a single-/double-quoted scalar token that starts at byte `start` of `text`:
+/// scan to the closing quote with the `''` / backslash rules (multi-line allowed).
+/// Returns (char length, byte length) of the token including both quotes.
+fn quoted_token_len(text: &str, start: usize, single: bool) -> Option<(usize, usize)> {
+    let rest = text.get(start..)?;
+    let mut it = rest.char_indices().peekable();
+    let (_, q) = it.next()?;
+    if q != if single { '\'' } else { '"' } {
+        return None;
+    }
+    let mut chars = 1usize;
+    while let Some((i, ch)) = it.next() {
+        chars += 1;
+        if single {
+            if ch == '\'' {
+                if matches!(it.peek(), Some((_, '\''))) {
+                    it.next();
+                    chars += 1;
+                } else {
+                    return Some((chars, i + 1));
+                }
+            }
+        } else if ch == '\\' {
+            if it.next().is_some() {
+                chars += 1;
+            }
+        } else if ch == '"' {
+            return Some((chars, i + 1));
+        }
+    }
+    None
+}
+
+/// `quoted`: for single-/double-quoted scalars the expected length is that of the token up to
+/// and including its closing quote (the raw parser's end mark runs on over trailing blanks and
+/// a comment); offset / line / column always come from the parser's start mark.
+fn vs_parser(l: &Location, p: &Pos, quoted: Option<(usize, usize)>) -> Result<(), (&'static str, String)> {
     let sp = l.span();
     if sp.offset() as usize != p.index {
         return Err(("char-offset", format!("char offset {} vs parser index {}", sp.offset(), p.index)));
@@ -173,12 +209,15 @@ fn vs_parser(l: &Location, p: &Pos) -> Result<(), (&'static str, String)> {
     if l.column() as usize != p.col + 1 {
         return Err(("column", format!("column {} vs parser col {} + 1", l.column(), p.col)));
     }
-    let plen = p.end_index.saturating_sub(p.index);
+    let plen = quoted.map(|q| q.0).unwrap_or(p.end_index.saturating_sub(p.index));
     if sp.len() as usize != plen {
-        return Err(("char-len", format!("char len {} vs parser span {}..{}", sp.len(), p.index, p.end_index)));
+        return Err((
+            "char-len",
+            format!("char len {} vs expected {plen} (parser span {}..{}, quoted token {:?})", sp.len(), p.index, p.end_index, quoted),
+        ));
     }
     if let (Some(b), Some(eb)) = (p.byte, p.end_byte) {
-        let blen = eb.saturating_sub(b);
+        let blen = quoted.map(|q| q.1).unwrap_or(eb.saturating_sub(b));
         if (b, blen) == (0, 0) {
             // the crate's documented "unavailable" sentinel coincides with this value
             if sp.byte_offset().is_some_and(|x| x != 0) {
@@ -358,7 +397,23 @@ fn check_one(
         }
 
         // (2) defined == the parser's mark of the defining node
-        if let Err((field, detail)) = vs_parser(&st.defined, &xn.def) {
+        let quoted = match (&xn.kind, xn.def.byte) {
+            (XK::Leaf { style: ScalarStyle::SingleQuoted, .. }, Some(b)) => quoted_token_len(stripped, b, true),
+            (XK::Leaf { style: ScalarStyle::DoubleQuoted, .. }, Some(b)) => quoted_token_len(stripped, b, false),
+            _ => None,
+        };
+        if matches!(&xn.kind, XK::Leaf { style: ScalarStyle::SingleQuoted | ScalarStyle::DoubleQuoted, .. }) && quoted.is_none() {
+            // cannot establish the token end independently
+            bump(counts, "quoted_token_rescan_failed");
+        }
+        let is_quoted = matches!(&xn.kind, XK::Leaf { style: ScalarStyle::SingleQuoted | ScalarStyle::DoubleQuoted, .. });
+        let quoted = if is_quoted && quoted.is_none() {
+            // no independent token end: no verdict on the length (take the reported one)
+            Some((st.defined.span().len() as usize, st.defined.span().byte_len().unwrap_or(0) as usize))
+        } else {
+            quoted
+        };
+        if let Err((field, detail)) = vs_parser(&st.defined, &xn.def, quoted) {
             let sig = if st.defined.span().offset() as usize != xn.def.index {
                 "C16:defined:names-another-node".to_string()
             } else {
@@ -418,7 +473,7 @@ fn check_one(
                     // the referenced location must be the full mark of that token
                     if let Indir::Alias(a) = xn.chain[i]
                         && let Some(tok) = pre.iter().find(|n| matches!(n, RNode::Alias { pos, .. } if pos.index == a))
-                        && let Err((field, detail)) = vs_parser(&st.referenced, &tok.pos())
+                        && let Err((field, detail)) = vs_parser(&st.referenced, &tok.pos(), None)
                     {
                         viol(run, 
                             &format!("C16:referenced:differs-from-parser-mark:{field}"),
@@ -990,7 +1045,7 @@ fn main() {
             let mut counts = Counts::new();
             let s = short_string(i, len);
             check_short(&run, &s, &mut counts);
-            if i % 7919 == 0 {
+            if i % 20011 == 7 {
                 run.sample(|| json!({"kind": "short", "text": s}));
             }
             run.count_map(&counts);
@@ -1129,8 +1184,8 @@ fn main() {
                 bump(&mut counts, "random_two_document_streams");
             }
         }
-        if i % 2999 == 0 {
-            run.sample(|| json!({"kind": "doc", "text": text}));
+        if i % 97 == 0 {
+            run.sample(|| json!({"kind": "doc", "multi": multi, "text": text}));
         }
         run.count_map(&counts);
         flush_viol(&run);
